@@ -127,7 +127,7 @@ PROPS["C05"] = dict(
 
 
 def c04():
-    obs = []
+    obs = page_obs("C04", [E_GENERIC], sizes=((32, 3),), flavours=("release",), replace=GENERIC_REPL)
     for v, n in [(1, "rezalloc"), (4, "recalloc")]:
         obs.append(api_ob("C04.grow.%s" % n, "h_realloc", v, defines=["ZERO_PREMISE"], funcs=RE_FUNCS, cost=60,
                           bounds="zero-initialised old block (bytes [requested,usable) zero), usable <= 64, new size <= 48"))
@@ -151,7 +151,7 @@ PROPS["C04"] = dict(
 
 
 def c06():
-    obs = []
+    obs = page_obs("C06", [E_GENERIC], sizes=((32, 3),), flavours=("release",), replace=GENERIC_REPL)
     names = ["calloc", "mallocn", "reallocn", "recalloc", "calloc_aligned", "calloc_aligned_at", "recalloc_aligned", "recalloc_aligned_at",
              "reallocarray", "reallocarr", "heap_calloc", "heap_mallocn", "heap_reallocn", "heap_recalloc", "heap_calloc_aligned",
              "heap_calloc_aligned_at", "heap_recalloc_aligned", "heap_recalloc_aligned_at"]
@@ -330,7 +330,7 @@ def arena_alloc_ob(prefix):
 
 
 def c18():
-    return arena_expiry_ob("C18") + seg_obs("C18", ["next_run"]) + [arena_free_ob("C18"),
+    return arena_expiry_ob("C18") + seg_obs("C18", ["next_run"]) + seg_shape_obs("C18", ["try_purge"]) + [arena_free_ob("C18"),
             os_ob("C18.os_purge", "h_purge", funcs=["_mi_os_purge_ex", "mi_os_decommit_ex", "_mi_os_reset", "_mi_os_commit_ex", "mi_os_page_align_areax"], cost=20,
                   bounds="any range, any delay value, decommit or reset mode")]
 
@@ -411,6 +411,10 @@ E_FREE = ("h_free_local", ["mi_free", "mi_checked_ptr_segment", "mi_free_block_l
 E_USABLE = ("h_usable", ["mi_usable_size", "_mi_usable_size", "mi_page_usable_aligned_size_of", "mi_page_usable_size_of", "_mi_page_ptr_unalign"])
 E_COLLECT = ("h_collect", ["_mi_page_free_collect", "_mi_page_thread_free_collect", "mi_block_next"])
 E_EXTEND = ("h_extend", ["mi_page_extend_free", "mi_page_free_list_extend", "mi_page_block_at"])
+E_GENERIC = ("h_generic", ["_mi_malloc_generic", "_mi_page_malloc", "_mi_page_malloc_zero", "_mi_memzero_aligned"])
+GENERIC_REPL = {"_mi_ptr_segment": "stub_ptr_segment", "_mi_segment_page_of": "stub_segment_page_of", "_mi_segment_page_start": "stub_segment_page_start",
+                "mi_find_page": "stub_find_page", "mi_heap_collect": "stub_heap_collect", "_mi_deferred_free": "stub_deferred_free",
+                "_mi_heap_delayed_free_partial": "stub_delayed_free_partial2", "mi_page_to_full": "stub_page_to_full", "mi_page_queue_of": "stub_page_queue_of"}
 E_VISIT = ("h_visit", ["_mi_heap_area_visit_blocks", "_mi_heap_area_init", "mi_get_fast_divisor", "mi_fast_divide", "_mi_page_free_collect"])
 
 
@@ -732,7 +736,7 @@ SEG_STUBS = ["_mi_os_commit may refuse on every call; _mi_os_purge decommits or 
 def sg_ob(id, entry, **kw):
     kw.setdefault("unwind", 20)
     kw.setdefault("unwindset", ["wfield.0:18", "mask_from.0:10", "_mi_commit_mask_next_run.0:66", "_mi_commit_mask_next_run.1:10", "_mi_commit_mask_next_run.2:66", "_mi_commit_mask_next_run.3:20",
-                                "_mi_commit_mask_committed_size.0:10", "_mi_commit_mask_committed_size.1:70", "mi_segment_try_purge.0:12", "h_next_run.0:76", "h_next_run.1:20"])
+                                "_mi_commit_mask_committed_size.0:66", "_mi_commit_mask_committed_size.1:10", "mi_commit_mask_create.0:10", "mi_segment_try_purge.0:12", "h_next_run.0:76", "h_next_run.1:20"])
     kw.setdefault("timeout", 900)
     kw.setdefault("native_replay", False)
     return O(id, "segment_layer.c", entry, **kw)
@@ -749,10 +753,30 @@ def seg_obs(prefix, which):
     return [sg_ob("%s.%s" % (prefix, w), tab[w][0], funcs=tab[w][1], bounds=tab[w][2], cost=60) for w in which]
 
 
+SEG_SHAPES = [(0x0F0F, 0x0303, 58, 8), (0x0000, 0x0000, 56, 16), (0xFF00, 0x0F00, 56, 8), (0x3C3C, 0x0C0C, 57, 14)]
+PURGE_SHAPES = [(0xFFFF, 0x0FF0), (0xF0FF, 0x30C3), (0x8001, 0x8001)]
+
+
+def seg_shape_obs(prefix, which):
+    obs = []
+    if "seg_commit" in which or "seg_purge" in which:
+        for (cb, pb, b0, nb) in SEG_SHAPES:
+            for w in ("seg_commit", "seg_purge"):
+                if w in which:
+                    obs.append(sg_ob("%s.%s.c%04x_p%04x_r%d_%d" % (prefix, w, cb, pb, b0, nb), "h_" + w, defines=["CB=0x%x" % cb, "PB=0x%x" % pb, "RB0=%d" % b0, "RNB=%d" % nb],
+                                     unwind=70, unwindset=[], std_checks=False, cost=10,
+                                     funcs=["mi_segment_commit", "mi_segment_ensure_committed", "mi_segment_purge", "mi_segment_commit_mask", "mi_commit_mask_set", "mi_commit_mask_clear", "mi_commit_mask_create_intersect"],
+                                     bounds="commit mask %04x / purge mask %04x in the 16-block window at block 56, range [%d,%d): OS answers, options, clock symbolic" % (cb, pb, b0, b0 + nb)))
+    if "try_purge" in which:
+        for (cb, pb) in PURGE_SHAPES:
+            obs.append(sg_ob("%s.try_purge.c%04x_p%04x" % (prefix, cb, pb), "h_try_purge", defines=["CB=0x%x" % cb, "PB=0x%x" % pb], unwind=70, unwindset=[], std_checks=False, cost=10,
+                             funcs=["mi_segment_try_purge", "_mi_commit_mask_next_run", "mi_segment_purge"],
+                             bounds="commit mask %04x / purge mask %04x (window at block 56, crossing a mask-field boundary), any expiry/clock, forced or not" % (cb, pb)))
+    return obs
+
+
 def c13():
-    # (mi_segment_commit / mi_segment_purge / mi_segment_try_purge harnesses exist in segment_layer.c but are not registered:
-    #  they did not reach a trustworthy verdict within the session, see DESIGN.md section 6)
-    return seg_obs("C13", ["commit_mask", "next_run"]) + [
+    return seg_obs("C13", ["commit_mask", "next_run"]) + seg_shape_obs("C13", ["seg_commit", "seg_purge", "try_purge"]) + [
         arena_free_ob("C13"), arena_alloc_ob("C13"),
         os_ob("C13.page_align", "h_page_align", funcs=["mi_os_page_align_areax", "_mi_align_up", "_mi_align_down"], cost=20, bounds="any address and size"),
         os_ob("C13.os_purge", "h_purge", funcs=["_mi_os_purge_ex", "mi_os_decommit_ex", "_mi_os_reset", "_mi_os_commit_ex"], cost=20, bounds="any range, decommit or reset mode, any delay")] + arena_expiry_ob("C13")[:2]
@@ -768,7 +792,7 @@ PROPS["C13"] = dict(
 
 
 def c07():
-    return os_roundtrip_obs("C07") + [arena_alloc_ob("C07"),
+    return os_roundtrip_obs("C07") + seg_shape_obs("C07", ["seg_commit"]) + [arena_alloc_ob("C07"),
         os_ob("C07.os_purge_commit", "h_purge", funcs=["_mi_os_commit_ex", "_mi_os_purge_ex"], cost=20, bounds="commit/purge with refusing OS")]
 
 
